@@ -296,7 +296,10 @@ def pure_fn(F, name, depth=0, _memo={}):
 class SaturationMonitor(Monitor):
     """A local that was set to the saturating sentinel (UINT32_MAX) on this path must not be an
     operand of an addition: it wraps to a small number and every `<`-style range test built on the
-    sum silently passes.  Paths are pruned with the outcomes of pure conditions tested earlier."""
+    sum silently passes.  Likewise a value computed from the local *before* it was saturated must not
+    be used afterwards (it still describes the unsaturated extent).  Paths are pruned with the
+    outcomes of pure conditions tested earlier.
+    state = (saturated ids, facts, derived pairs (D, X), stale ids)"""
 
     def __init__(self, fn, F):
         self.fn, self.F = fn, F
@@ -310,8 +313,17 @@ class SaturationMonitor(Monitor):
         return True
 
     def elem(self, m, pt, e, s):
-        sat, facts = m
+        sat, facts, derived, stale = m
+        # uses
+        targets = set()
         for n in own_walk(e):
+            if n.get("k") == "assign" and strip(n["l"]).get("k") == "ref":
+                targets.add(id(strip(n["l"])))
+        for n in own_walk(e):
+            if n.get("k") == "ref" and n.get("id") in stale and id(n) not in targets:
+                src = [x for d, x in derived if d == n.get("id")]
+                return Viol("`%s` was computed before `%s` was saturated to UINT32_MAX on this path and is used afterwards: it still describes the unsaturated extent" % (
+                    n.get("name"), self.fn._names.get(src[0], "?") if src and hasattr(self.fn, "_names") else "its source"), pt)
             if n.get("k") == "bin" and n.get("op") in ("+",):
                 for side in ("l", "r"):
                     o = strip(n[side])
@@ -331,18 +343,25 @@ class SaturationMonitor(Monitor):
             elif n.get("k") == "decl" and n is e:
                 tgt, val = {"id": n.get("id"), "name": n.get("name")}, strip(n.get("init") or {})
             if tgt is not None and tgt.get("id") is not None:
+                tid = tgt["id"]
                 if val.get("k") == "int" and val.get("v") in SENTINELS:
-                    sat = sat | {tgt["id"]}
+                    sat = sat | {tid}
+                    stale = stale | frozenset(d for d, x in derived if x == tid)
                 else:
-                    sat = sat - {tgt["id"]}
+                    sat = sat - {tid}
+                # the target is (re)computed now: it is fresh, and derived from whatever its value mentions
+                stale = stale - {tid}
+                derived = frozenset((d, x) for d, x in derived if d != tid)
+                srcs = {y.get("id") for y in walk(val) if y.get("k") == "ref" and y.get("dk") in ("local", "param") and y.get("id") != tid} if val else set()
+                derived = derived | frozenset((tid, x) for x in srcs if x in self.watch)
                 nm = tgt.get("name") or ""
                 facts = frozenset(f for f in facts if not re.search(r"\b%s\b" % re.escape(nm), f[0]))
-        return (sat, facts)
+        return (sat, facts, derived, stale)
 
     def edge(self, m, bid, edge, cond, truth, s):
         if cond is None or truth is None:
             return m
-        sat, facts = m
+        sat, facts, derived, stale = m
         c = strip(cond)
         while c.get("k") == "un" and c.get("op") == "!":
             c, truth = strip(c["e"]), not truth
@@ -351,7 +370,7 @@ class SaturationMonitor(Monitor):
             return PRUNE
         if self._pure(c):
             facts = facts | {(txt, truth)}
-        return (sat, facts)
+        return (sat, facts, derived, stale)
 
 
 def rule_saturation(ctx, F):
@@ -369,11 +388,19 @@ def rule_saturation(ctx, F):
         if not has:
             continue
         n += 1
-        srch = Search(fn, SaturationMonitor(fn, F), budget=2000000)
-        v = srch.run((frozenset(), frozenset()))
+        mon = SaturationMonitor(fn, F)
+        # only values derived from a local that *can* be saturated are tracked
+        mon.watch = set()
+        for pt, e in fn.points():
+            for x in own_walk(e):
+                if x.get("k") == "assign" and strip(x["l"]).get("k") == "ref" and strip(x["r"]).get("k") == "int" and strip(x["r"]).get("v") in SENTINELS:
+                    mon.watch.add(strip(x["l"])["id"])
+        fn.defs(0)
+        srch = Search(fn, mon, budget=2000000)
+        v = srch.run((frozenset(), frozenset(), frozenset(), frozenset()))
         key = "%s:saturated-local-not-added" % fn.name
         if v is None:
-            ctx.ok("P6", key, "no path adds to a local while it holds UINT32_MAX (%d states)" % srch.states, sample={"function": fn.name})
+            ctx.ok("P6", key, "no path adds to a local while it holds UINT32_MAX, or uses a value computed from it before the saturation (%d states)" % srch.states, sample={"function": fn.name})
         else:
             ctx.bad("P6", key, "%s: %s (%s)" % (fn.name, v.msg, fn.loc(v.pt)), {"site": fn.loc(v.pt), "path": srch.render_path(v.path)[-6:]})
     ctx.floor("functions with a local saturated to UINT32_MAX", n, 5)
